@@ -943,6 +943,22 @@ def r_snapshot( ctx ):
         res.bad( src, rebinds[0], 'Attribute.__setitem__ re-binds the storage of a vector ( %s )' % norm_text( rebinds[0] ), 'the write is a copy-modify-install: between the copy and the install another session\'s write to other elements of the same array is lost, although it was acknowledged' )
     else:
         res.ok( src, si, '__setitem__ re-binds the storage only for a scalar; a vector is written in place' )
+    # the request handlers use that operation ONCE per request: a multi-element write is one store of a slice ( att[:] = values,
+    # attribute[beg:end] = data ), never a loop of element stores - between two element stores another session's multi-element read
+    # observes part of the write
+    for rel_, qn_ in (( DEVICE, 'Object.request' ), ( LOGIX, 'Logix.request' )):
+        hsrc = ctx.src( rel_ )
+        hf = hsrc.get( qn_ )
+        atts = { t_.id for a_ in ast.walk( hf ) if isinstance( a_, ast.Assign ) and any( is_call_to( c_, 'lookup', 'resolve_tag', 'self.attribute.get' ) or ( isinstance( c_, ast.Subscript ) and 'attribute' in txt( c_.value )) for c_ in ast.walk( a_.value ))
+                 for t_ in a_.targets if isinstance( t_, ast.Name ) } | { 'attribute', 'att' }
+        elem = [ a_ for a_ in ast.walk( hf ) if isinstance( a_, ( ast.Assign, ast.AugAssign )) for t_ in ( a_.targets if isinstance( a_, ast.Assign ) else [ a_.target ] )
+                 if isinstance( t_, ast.Subscript ) and isinstance( t_.value, ast.Name ) and t_.value.id in atts
+                 and any( isinstance( l_, ( ast.For, ast.While )) for l_ in hsrc.ancestors( a_ ) if any( l_ is y_ for y_ in ast.walk( hf ))) ]
+        if elem:
+            res.bad( hsrc, elem[0], '%s stores into an Attribute inside a loop ( %s )' % ( qn_, norm_text( ast.unparse( elem[0] ))[:60] ),
+                     'a multi-element write becomes one store per element: a concurrent multi-element read of the same Attribute returns part of the new and part of the old values ( a torn read ) - each request must take effect atomically', func=qn_ )
+        else:
+            res.ok( hsrc, hf, '%s: every store into an Attribute is a single ( slice ) store outside any loop' % qn_ )
     loads = [ n for n in walk_no_nested( gi ) if isinstance( n, ast.Subscript ) and txt( n.value ) == 'self.value' ]
     if loads and all( txt( n.slice ) == 'key' for n in loads ):
         res.ok( src, gi, 'vector load is the single expression self.value[key]' )
@@ -3405,10 +3421,10 @@ def p_route( ctx ):
         return any( isinstance( d, ast.Delete ) and any( 'route_conn' in txt( x ) for x in d.targets ) for d in ast.walk( h )) \
             or any( isinstance( c, ast.Call ) and isinstance( c.func, ast.Attribute ) and c.func.attr == 'pop' and 'route_conn' in txt( c.func.value ) for c in ast.walk( h ))
     tries = [ t for t in ast.walk( fn ) if isinstance( t, ast.Try ) and any( drops( h ) and any( isinstance( r, ast.Raise ) for r in h.body ) for h in t.handlers ) ]
-    if len( tries ) != 1:
+    if not tries or len( tries ) > 2 or ( len( tries ) == 2 and not any( tries[1] is x_ for x_ in ast.walk( tries[0] ))):
         res.bad( src, aw, 'routed request failure handling', 'a failed routed request must close and forget the shared route connection ( drop self.route_conn[target]; raise )' )
         return res
-    T = tries[0]
+    T = tries[0]						# the outermost; a second one may retire the connection while it is still held ( clause 5 )
     h = [ h for h in T.handlers if drops( h ) ][0]
     # forgetting is not closing: a session that is already waiting for the shared connection ( blocked on its lock ) keeps a reference to it;
     # unless the handler CLOSES the connection, that session goes on to send on the same socket and reads the response still in flight
@@ -3453,13 +3469,23 @@ def p_route( ctx ):
         res.bad( src, closes[0], 'UCMM.request: the handler closes / forgets whatever connection the table holds now', 'when the entry was replaced meanwhile the healthy replacement is closed and the failed connection stays in use: a session waiting on it is answered with the reply still in flight' )
     # (4) a session that obtains the connection only after its previous holder failed and retired it is not failed for that: inside the
     #     `with`, "is this still the registered connection?" leads back to the look-up ( continue in a loop ), not to an assertion
-    stale = [ n_ for w_ in withs for n_ in ast.walk( w_ ) if isinstance( n_, ( ast.If, ast.Assert )) and any( isinstance( x_, ast.Compare ) and any( isinstance( o_, ( ast.Is, ast.IsNot )) for o_ in x_.ops ) and 'route_conn' in txt( x_ ) for x_ in ast.walk( n_.test )) ]
+    stale = [ n_ for w_ in withs for n_ in ast.walk( w_ ) if isinstance( n_, ( ast.If, ast.Assert )) and not any( isinstance( a_, ast.ExceptHandler ) for a_ in src.ancestors( n_ ) if any( a_ is y_ for y_ in ast.walk( w_ ))) and any( isinstance( x_, ast.Compare ) and any( isinstance( o_, ( ast.Is, ast.IsNot )) for o_ in x_.ops ) and 'route_conn' in txt( x_ ) for x_ in ast.walk( n_.test )) ]
     if stale and all( isinstance( n_, ast.If ) and any( isinstance( b_, ast.Continue ) for b_ in n_.body ) and csrc_enclosing_loop( src, n_ ) for n_ in stale ):
         res.ok( src, stale[0], 'a connection found retired after waiting for it is replaced by a fresh one ( the request is not failed for another session\'s time-out )' )
     elif stale:
         res.bad( src, stale[0], 'UCMM.request fails a request because the route connection it waited for was retired meanwhile', 'the session that queued behind a request that timed out is answered with an error ( and terminated ) for a failure that was not its own: with the requests one after the other it is served' )
     else:
         res.bad( src, withs[0] if withs else aw, 'UCMM.request never asks whether the connection it waited for is still the registered one', 'a session blocked on the connection\'s lock while its holder failed goes on to use the closed ( or still busy ) connection' )
+    # (5) the failed connection is retired while it is still HELD: the handler that forgets and closes it lies inside `with <route> as conn:`.
+    #     Retired only after the with-block was left ( its lock released ), a session queued for the connection obtains it while it is still
+    #     registered - the re-check of (4) passes - sends on it, and reads the late reply to the request that timed out
+    held = [ w_ for w_ in withs for t_ in tries for h_ in t_.handlers if drops( h_ ) and any( h_ is y_ for y_ in ast.walk( w_ ))
+             and any( isinstance( c_, ast.Call ) and isinstance( c_.func, ast.Attribute ) and c_.func.attr == 'close' for c_ in ast.walk( h_ )) and any( isinstance( r_, ast.Raise ) for r_ in h_.body ) ]
+    if held:
+        res.ok( src, h, 'the failed route connection is forgotten and closed before its lock is released' )
+    else:
+        res.bad( src, h, 'UCMM.request: the failed route connection is retired only after the lock on it was released',
+                 'between leaving `with route as conn:` and the handler that forgets and closes the connection, a session queued for it takes it over ( still registered ), sends its request on it and receives the late reply to the request that timed out: a reply delivered to another session', func='UCMM.request' )
     if h.type is None or dotted( h.type ) in ( 'Exception', 'BaseException' ):
         res.ok( src, h, 'any failure of the routed exchange deletes the shared route connection and re-raises' )
     else:
@@ -3721,4 +3747,61 @@ def p_once( ctx ):
         else:
             res.bad( src, a, 'Message_Router.request: %s is not protected' % norm_text( ast.unparse( a ))[:70],
                      'the replies of an executed Multiple Service Packet that do not fit its UINT offsets raise out of request(): the caller takes the request for unparsable, although every member - writes included - has been executed', func='Message_Router.request' )
+    return res
+
+
+@rule( 'U-NULLADDR', props=( 'C08', 'C06' ), floor=1 )
+def u_nulladdr( ctx ):
+    """UCMM.request: what is not a connected request ( address item of length 0 ) is an unconnected one only if its address item IS the NULL
+    address item: the unconnected branch asserts `...CPF.item[0].type_id == 0` ahead of handing the carried request to any Object.  An item
+    of another known type and length 0 ( 0x00A1, 0x0001, 0x000C, 0x0100 ) otherwise has its request executed - a write takes effect - before
+    rendering the reply fails on the address item: the client gets status 0x08 and loses its session, the tag has changed."""
+    res = Result( 'U-NULLADDR' )
+    src = ctx.src( UCMM )
+    fn = src.get( 'UCMM.request' )
+    sel = [ i for i in ast.walk( fn ) if isinstance( i, ast.If ) and pmatch( i.test, '_x.CPF.item[0].length > 0' ) is not None and i.orelse ]
+    if len( sel ) != 1:
+        raise AnalysisError( 'UCMM.request: the connected / unconnected selection ( ...CPF.item[0].length > 0 ) not found' )
+    blk = sel[0].orelse
+    first_req = next(( k for k, st in enumerate( blk ) if any( isinstance( c, ast.Call ) and isinstance( c.func, ast.Attribute ) and c.func.attr in ( 'request', 'unconnected_send' ) for c in ast.walk( st ))), len( blk ))
+    asserts = [ st for st in blk[:first_req] if isinstance( st, ast.Assert ) and ( pmatch( st.test, '_x.CPF.item[0].type_id == 0' ) is not None or pmatch( st.test, 'not _x.CPF.item[0].type_id' ) is not None ) ]
+    if asserts:
+        res.ok( src, asserts[0], 'the unconnected branch requires the NULL address item ( type 0 ) before anything is handed to an Object' )
+    else:
+        res.bad( src, sel[0], 'UCMM.request: the unconnected branch does not look at the type of the address item',
+                 'a SendRRData whose address item is of another known type with length 0 has its request executed ( a Write Tag takes effect ) and only then fails when the reply is rendered: status 0x08, session dropped, tag changed' )
+    return res
+
+
+@rule( 'D-NOSUCH', props=( 'C05', 'C07' ), floor=1 )
+def d_nosuch( ctx ):
+    """Message_Router.route answers None for "the path names this Object itself"; an Object that does not exist must not look the same: the
+    result of lookup( *ids ) is required to be an Object ( assert ... is not None, or a test that raises / returns False ) before it is
+    returned.  Otherwise a Multiple Service Packet addressed to a class / instance that does not exist is executed by the router itself -
+    its writes take effect and it is answered 0x00 - where a path naming an unknown tag is refused with 0x16."""
+    res = Result( 'D-NOSUCH' )
+    src = ctx.src( DEVICE )
+    fn = src.get( 'Message_Router.route' )
+    looks = [ a for a in ast.walk( fn ) if isinstance( a, ast.Assign ) and is_call_to( a.value, 'lookup' ) and isinstance( a.targets[0], ast.Name ) ]
+    if len( looks ) != 1:
+        raise AnalysisError( 'Message_Router.route: %d lookup( ... ) assignments' % len( looks ))
+    T = looks[0].targets[0].id
+    par = src.parent.get( looks[0] )
+    blk = next(( getattr( par, f_ ) for f_ in ( 'body', 'orelse', 'finalbody' ) if looks[0] in getattr( par, f_, [] )), None )
+    if blk is None:
+        raise AnalysisError( 'Message_Router.route: block of the lookup not found' )
+    after = blk[blk.index( looks[0] ) + 1:]
+    def requires_( st ):
+        if isinstance( st, ast.Assert ):
+            return pmatch( st.test, '%s is not None' % T ) is not None or pmatch( st.test, T ) is not None
+        if isinstance( st, ast.If ) and ( pmatch( st.test, '%s is None' % T ) is not None or pmatch( st.test, 'not %s' % T ) is not None ):
+            return any( isinstance( b, ast.Raise ) or ( isinstance( b, ast.Return ) and try_fold( b.value, default=None ) is False ) for b in st.body )
+        return False
+    in_try = any( isinstance( a, ast.Try ) and any( looks[0] is y for b in a.body for y in ast.walk( b )) for a in src.ancestors( looks[0] ))
+    req = [ st for st in after if requires_( st ) ]
+    if req and in_try:
+        res.ok( src, req[0], 'Message_Router.route: an Object that does not exist is an invalid route ( %s ), not "this Object"' % norm_text( ast.unparse( req[0] ))[:60] )
+    else:
+        res.bad( src, looks[0], 'Message_Router.route: %s = lookup( ... ) is returned as it is' % T,
+                 'lookup answers None for an Object that does not exist, and route() answers None for "the path names me": a Multiple Service Packet addressed to @0x99/1 or @2/7 is executed by the Message Router itself ( status 0x00, its Write Tag applied ) instead of being refused with 0x16 like one addressed to an unknown tag' )
     return res
